@@ -131,7 +131,9 @@ func walkSDRs(ctx context.Context, s Session) (SDRRepository, error) {
 				return nil, fmt.Errorf("packet is missing Full Sensor Record layer: %v",
 					getSDRCmd)
 			}
-			repo[getSDRCmd.Req.RecordID] = fsrLayer.(*ipmi.FullSensorRecord)
+			// index by the ID in the record's own header: the ID we asked for
+			// is the 0x0000 "first record" alias at the start of the walk
+			repo[header.ID] = fsrLayer.(*ipmi.FullSensorRecord)
 		}
 
 		getSDRCmd.Req.RecordID = getSDRCmd.Rsp.Next
